@@ -11,6 +11,11 @@ MODULES = {
     "C01": "harness.dispatcher_props", "C02": "harness.dispatcher_props", "C05": "harness.dispatcher_props",
     "C06": "harness.dispatcher_props", "C07": "harness.dispatcher_props", "C09": "harness.dispatcher_props",
     "C10": "harness.dispatcher_props", "C13": "harness.dispatcher_props",
+    "C03": "harness.data_props", "C04": "harness.data_props", "C14": "harness.data_props",
+    "C15": "harness.data_props", "C19": "harness.data_props",
+    "C16": "harness.graph_props", "C17": "harness.graph_props",
+    "C11": "harness.feature_props", "C12": "harness.feature_props",
+    "C18": "harness.env_props", "C20": "harness.env_props",
 }
 
 
